@@ -30,7 +30,8 @@ for d in sorted(glob.glob(os.path.join(ROOT, 'seeded', 'C*-m*'))):
     try:
         res = {}
         for mode, extra in (('deductive', ['--no-native']), ('native', ['--only', '__no_scenario__'])):
-            p = subprocess.run([os.path.join(ROOT, 'check'), prop] + extra, capture_output=True, text=True, cwd=ROOT, timeout=3600)
+            p = subprocess.run([os.path.join(ROOT, 'check'), prop] + extra, capture_output=True, text=True, cwd=ROOT, timeout=3600,
+                               env=dict(os.environ, PYVC_EVIDENCE_DIR='/tmp/mutant-evidence'))
             out = p.stdout + p.stderr
             m = re.search(r'SUMMARY .*', out)
             summ = m.group(0) if m else ''
